@@ -32,13 +32,15 @@ def evaluate_require_obligations(chk):
     raising = ('LuaBuildError',)
     outs = effects.Paths(may_raise=lambda c: False, dataflow=True, max_iter=2, limit=400000).function(fn.node)
     res = []
-    bad_store, bad_order, bad_open, nstores = [], [], [], 0
+    bad_store, bad_order, bad_open, bad_skip, nstores = [], [], [], [], 0
     for kind, t in outs:
         fresh = False           # `require_path not in package_lua` established since the last iteration start
         stored = False
         located = None
-        for e in t:
+        for e in list(t) + ([('iterate',)] if kind != 'raise' else []):
             if e[0] == 'iterate':
+                if fresh and located is True and not stored:
+                    bad_skip.append('an iteration with a new require string and a located file ends without entering the package in the table')
                 fresh, stored, located = False, False, None
             elif e[0] == 'assume' and ast.unparse(e[1]) == 'require_path not in package_lua':
                 fresh = e[2]
@@ -60,6 +62,8 @@ def evaluate_require_obligations(chk):
                     bad_open.append('open(%s) without a located file' % (', '.join(e[2]),))
     res.append(('PATHS:require/on all %d paths a package is stored under its require string only if that string was not in the table yet'
                 % len(outs), not bad_store and nstores > 0, str(sorted(set(bad_store))[:2])))
+    res.append(('PATHS:require/every require string that is not in the table yet and whose file is found is entered in the table (no name is skipped)',
+                not bad_skip, str(sorted(set(bad_skip))[:2])))
     res.append(('PATHS:require/the package is entered in the table before the recursive descent, which resolves relative to the package\'s own file',
                 not bad_order, str(sorted(set(bad_order))[:2])))
     res.append(('PATHS:require/only the located file is opened; an unresolved require() raises LuaBuildError first', not bad_open and
